@@ -103,7 +103,7 @@ def runOp (env : Env) (w : World) (op : String) : World × String :=
   let fin (r : World × Outcome) : World × String :=
     (r.1, renderOutcome r.2 ++ " # " ++ String.intercalate "," (r.1.calls.map String.ofList) ++ " # " ++ renderCache r.1)
   match op.splitOn ":" with
-  | ["E", h] => let t := hexToChars h.toList; fin (evalText env (evalFuel t) w t true [])
+  | ["E", h] => let t := hexToChars h.toList; fin (evalText env (evalFuel t) w t true)
   | ["V", h, v, ivs] =>
     -- `evaluate(q, input_value=v)` (`ivs = 0`) or `evaluate_on(v, q)` (`ivs = 1`: NoCache, input value specified)
     let t := hexToChars h.toList
@@ -111,18 +111,18 @@ def runOp (env : Env) (w : World) (op : String) : World × String :=
      | some q, some v =>
        let input : Option Val := match v with | .none => none | v => some v
        let plain := input.isNone && ivs != "1"
-       fin (evalQ env (evalFuel t) w q t .none input plain [])
+       fin (evalQ env (evalFuel t) w q t .none input plain)
      | none, _ => fin (w, .parseError)
      | _, none => (w, "BADINPUT"))
   | ["XL", h, vs] =>
     let t := hexToChars h.toList
     (match parse env.dec t with
-     | some q => fin (evalQ env (evalFuel t) w q t (.list ((splitNonEmpty vs ";").filterMap valOf)) none true [])
+     | some q => fin (evalQ env (evalFuel t) w q t (.list ((splitNonEmpty vs ";").filterMap valOf)) none true)
      | none => fin (w, .parseError))
   | ["XD", h, kv] =>
     let t := hexToChars h.toList
     (match parse env.dec t with
-     | some q => fin (evalQ env (evalFuel t) w q t (.dict (kvOf kv)) none true [])
+     | some q => fin (evalQ env (evalFuel t) w q t (.dict (kvOf kv)) none true)
      | none => fin (w, .parseError))
   | ["R", h] => let w := w.remove (hexToChars h.toList); (w, "OK #  # " ++ renderCache w)
   | ["C"] => let w := { w with cache := [] }; (w, "OK #  # ")
